@@ -48,12 +48,18 @@ void viol(const std::string &id, const std::string &cls, const std::string &deta
 // records: ADD <case> <ev> <now %a> <when %a> <weight> | DEL <case> <ev> | FIRE <case> <ev> <now %a> | TIME/BACK <case> <now %a>
 //          RUN <case> <us> | RES <case> added fired cancelled left
 
+// An event is identified, as in squid, by the pair (handler, argument): three handlers share four argument objects, so cancelling one
+// event must leave the events of other handlers on the same argument (and of the same handler on other arguments) alone.
 struct EvRec {
     int id = 0;
     bool pending = false;
     int fired = 0;
     double key = 0;
+    int handler = 0;
+    int slot = 0;
 };
+struct C59Arg { int slot; };
+C59Arg c59Args[4] = {{0}, {1}, {2}, {3}};
 
 struct C59State {
     bool loaded = false;
@@ -71,14 +77,24 @@ struct C59State {
 };
 C59State S59;
 
+template <int H>
 void c59Fired(void *arg)
 {
-    EvRec *e = static_cast<EvRec *>(arg);
+    const int slot = static_cast<C59Arg *>(arg)->slot;
+    EvRec *e = nullptr;
+    for (auto &p : S59.evs)
+        if (p.second->pending && p.second->handler == H && p.second->slot == slot) { e = p.second; break; }
+    if (!e) { // nothing the harness knows of is pending for this (handler, argument): a cancelled or never-added event fired
+        vsim::hist("FIRE\t%s\t%d\t%a", S59.id.c_str(), -(H * 10 + slot + 1), current_dtime);
+        ++S59.nFire;
+        return;
+    }
     vsim::hist("FIRE\t%s\t%d\t%a", S59.id.c_str(), e->id, current_dtime);
     e->pending = false;
     ++e->fired;
     ++S59.nFire;
 }
+EVH *const c59Handlers[3] = {c59Fired<0>, c59Fired<1>, c59Fired<2>};
 
 void c59Finish()
 {
@@ -88,10 +104,10 @@ void c59Finish()
         EvRec *e = p.second;
         if (e->pending) {
             ++left;
-            const bool there = eventFind(c59Fired, e);
+            const bool there = eventFind(c59Handlers[e->handler], &c59Args[e->slot]);
             vsim::hist("LEFT\t%s\t%d\t%d", s.id.c_str(), e->id, there ? 1 : 0);
             if (there)
-                eventDelete(c59Fired, e);
+                eventDelete(c59Handlers[e->handler], &c59Args[e->slot]);
         }
         delete e;
     }
@@ -139,18 +155,24 @@ int hookC59(const std::vector<std::string> &, uint64_t *advanceUs)
                 const double when = (double)strtoull(op[2].c_str(), nullptr, 10) / 1000000.0;
                 const int weight = atoi(op[3].c_str());
                 if (s.evs.count(e->id)) { delete e; continue; }
+                e->handler = e->id % 3;
+                e->slot = (e->id / 3) % 4;
+                bool clash = false; // squid cannot tell two pending events with the same handler and argument apart: never create such a pair
+                for (auto &p : s.evs)
+                    if (p.second->pending && p.second->handler == e->handler && p.second->slot == e->slot) clash = true;
+                if (clash) { delete e; continue; }
                 e->pending = true;
                 e->key = when > 0.0 ? current_dtime + when : 0;
                 s.evs[e->id] = e;
                 vsim::hist("ADD\t%s\t%d\t%a\t%a\t%d", s.id.c_str(), e->id, current_dtime, when, weight);
-                eventAdd("verifC59", c59Fired, e, when, weight, false);
+                eventAdd("verifC59", c59Handlers[e->handler], &c59Args[e->slot], when, weight, false);
                 ++s.nAdd;
             } else if (op[0] == "X" && op.size() == 2) {
                 const auto it = s.evs.find(atoi(op[1].c_str()));
                 if (it == s.evs.end() || !it->second->pending)
                     continue; // eventDelete() of an event that is not queued is a debug_trap() (fatal under -C): never ask for it
                 vsim::hist("DEL\t%s\t%d", s.id.c_str(), it->second->id);
-                eventDelete(c59Fired, it->second);
+                eventDelete(c59Handlers[it->second->handler], &c59Args[it->second->slot]);
                 it->second->pending = false;
                 ++s.nDel;
             } else if (op[0] == "T" && op.size() == 2) {
